@@ -5,7 +5,7 @@ import ast
 import copy
 from dataclasses import replace
 
-from .model import FuncInfo
+from .model import FuncInfo, norm
 
 
 def with_aliases_resolved(fi: FuncInfo, attrs=None) -> FuncInfo:
@@ -69,3 +69,29 @@ def enum_aliases(prog, ci):
                 else:
                     seen[key] = b.targets[0].id
     return out
+
+
+def as_dict_literal(prog, mi, e, depth=0):
+    """the dict literal a module-level table expression denotes: a dict display, dict(<sequence of pairs>), a name bound once
+    to one of those, or a dict comprehension `{k: v for k, v in <sequence of pairs>}`"""
+    if e is None or depth > 4:
+        return e
+    if isinstance(e, ast.Dict):
+        return e
+    if isinstance(e, ast.Name) and mi.const_multi.get(e.id, 0) == 1:
+        return as_dict_literal(prog, mi, mi.consts.get(e.id), depth + 1)
+    seq = None
+    if isinstance(e, ast.Call) and isinstance(e.func, ast.Name) and e.func.id == "dict" and len(e.args) == 1 and not e.keywords:
+        seq = e.args[0]
+    if isinstance(e, ast.DictComp) and len(e.generators) == 1 and not e.generators[0].ifs and isinstance(e.generators[0].target, ast.Tuple) \
+            and len(e.generators[0].target.elts) == 2 and norm(e.key) == norm(e.generators[0].target.elts[0]) and norm(e.value) == norm(e.generators[0].target.elts[1]):
+        seq = e.generators[0].iter
+    if seq is not None:
+        if isinstance(seq, ast.Name) and mi.const_multi.get(seq.id, 0) == 1:
+            seq = mi.consts.get(seq.id)
+        if isinstance(seq, (ast.Tuple, ast.List)) and all(isinstance(p_, (ast.Tuple, ast.List)) and len(p_.elts) == 2 for p_ in seq.elts):
+            d = ast.Dict(keys=[p_.elts[0] for p_ in seq.elts], values=[p_.elts[1] for p_ in seq.elts])
+            return ast.copy_location(d, e)
+    return e
+
+
